@@ -54,7 +54,6 @@ def main():
         meta["checks"]["apply_error"] = o[-300:]
     else:
         # evidence files describe runs on the unchanged tree: keep them out of reach of seeded runs
-        import shutil
         import tempfile
         keep = tempfile.mkdtemp(prefix="evidence_keep_", dir=os.path.join(VERIF, ".cache"))
         shutil.copytree(os.path.join(VERIF, "evidence"), os.path.join(keep, "evidence"))
